@@ -163,6 +163,7 @@ def verify_case(reg, con, case, hooks=None):
     st = st.with_frame(fid, None, a)
     E0 = Env(a, st, eng=eng)
     st = st.assume(*eng.kind_axioms(st))
+    st = st.assume(*con.axioms(E0))
     st = st.assume(con.pre(E0), case.requires(E0))
     eng.entry_state, eng.entry_args = st, a
     try:
@@ -237,6 +238,7 @@ def coverage_obligations(reg, con):
             st, v = t.make(st, nm)
             a[nm] = v
         E0 = Env(a, st, eng=eng)
+        st = st.assume(*con.axioms(E0))
         st = st.assume(con.pre(E0))
         dom = getattr(cases[0], "domain", None)
         if dom is not None:
